@@ -157,3 +157,81 @@ func c10Mixed(ctx *Ctx, i int, drv int) {
 	}
 	ctx.Emit(Case{I: i, Kind: "keepalive-withdraw-" + driverNames[drv], Desc: map[string]interface{}{"keepalive_then_withdraw": kw, "withdraw_then_keepalive": wk, "withdraw_between_credits": mid}, Monitor: mon})
 }
+
+// The other way round: a keep-alive credits the wallet while the wallet's withdrawal is waiting for
+// its settlement (after it read the balance). One-at-a-time orders: withdrawal first (pays what
+// was earned, the new credit stays) or keep-alive first (pays both). Here every request touches
+// the wallet once, so the outcome must be one of the two.
+func c10WdCreditRun(drv int, mode int) mixedOutcome {
+	cfg := worldCfg{Drv: drv, Price: "1000", IntervalNs: 60e9, Settle: true}
+	w := newWorld(cfg)
+	defer w.Close()
+	w.aliasAll()
+	for _, o := range []*POp{{Op: "connect", Node: "h1", Host: true, Kind: "geth"}, {Op: "connect", Node: "c1", Kind: "geth"},
+		{Op: "addnode", Wallet: "w1", Node: "h1"},
+		{Op: "update", Node: "c1", Peers: []string{"h1"}, Block: 1, Elapsed: 0},
+		{Op: "update", Node: "c1", Peers: []string{"h1"}, Block: 2, Elapsed: 300e9}} { // the wallet earns 5000
+		w.applyPOp(o)
+	}
+	prev, err := w.st.GetNode(store.NodeID(nodeIDOf("c1")))
+	if err != nil {
+		fatal("%v", err)
+	}
+	w.useRealClk = false
+	w.clockNow = time.Unix(0, prev.LastSeen.UnixNano()+42e9) // the next keep-alive credits 700
+	w.mu.Lock()
+	w.settleOK = true
+	nlog := len(w.settleLog)
+	w.mu.Unlock()
+	keepalive := func() {
+		if _, err := w.update("c1", []string{"h1"}, 3); err != nil {
+			fatal("keep-alive: %v", err)
+		}
+	}
+	withdraw := func() {
+		if err := w.withdraw("w1"); err != nil {
+			fatal("withdraw: %v", err)
+		}
+	}
+	switch mode {
+	case 0:
+		withdraw()
+		keepalive()
+	case 1:
+		keepalive()
+		withdraw()
+	default:
+		w.mu.Lock()
+		w.settleHook = func(n int) bool { keepalive(); return true }
+		w.mu.Unlock()
+		withdraw()
+		w.mu.Lock()
+		w.settleHook = nil
+		w.mu.Unlock()
+	}
+	left, _ := w.st.GetAccountBalance(store.Account(walletOf("w1")))
+	cl, _ := w.st.GetNodeBalance(store.NodeID(nodeIDOf("c1")))
+	settled := new(big.Int)
+	w.mu.Lock()
+	for _, c := range w.settleLog[nlog:] {
+		if c.OK {
+			a, _ := new(big.Int).SetString(c.Amount, 10)
+			settled.Add(settled, a)
+		}
+	}
+	w.mu.Unlock()
+	return mixedOutcome{Left: left.Credit.String(), Settled: settled.String(), Client: cl.Credit.String()}
+}
+
+func c10WdCredit(ctx *Ctx, i int, drv int) {
+	wk := c10WdCreditRun(drv, 0)
+	kw := c10WdCreditRun(drv, 1)
+	mid := c10WdCreditRun(drv, 2)
+	var mon []string
+	same := func(a, b mixedOutcome) bool { return a.Left == b.Left && a.Settled == b.Settled && a.Client == b.Client }
+	if !same(mid, kw) && !same(mid, wk) {
+		mon = append(mon, fmt.Sprintf("c10-withdraw-credit-not-serialisable: a keep-alive credits a wallet while the wallet's withdrawal waits for its settlement: %s left on the wallet and %s settled; withdrawal then keep-alive leaves %s and settles %s, keep-alive then withdrawal leaves %s and settles %s: the result of neither one-at-a-time order (%s driver)",
+			mid.Left, mid.Settled, wk.Left, wk.Settled, kw.Left, kw.Settled, driverNames[drv]))
+	}
+	ctx.Emit(Case{I: i, Kind: "withdraw-credit-" + driverNames[drv], Desc: map[string]interface{}{"withdraw_then_keepalive": wk, "keepalive_then_withdraw": kw, "keepalive_during_settlement": mid}, Monitor: mon})
+}
